@@ -49,9 +49,13 @@ CLAIMED = {
              'declared ranges with edges cell->range->formula), and after every evaluate all inputs the '
              'harness DAG names must be graph ancestors of the evaluated cell (influence confirmed through '
              'the reference model before reporting; through written references only where a workbook holds '
-             'computed ones). One fault kind: a graph build that fails half way (a formula names a cell on a '
-             'sheet the workbook does not have), after which the model is used on. Sampling of formulas and '
-             'histories, not proof.',
+             'computed ones). Faults: a graph build that fails half way (a formula names a cell on a '
+             'sheet the workbook does not have), after which the model is used on; trim_graph in the middle '
+             'of a history (one run in eight is a trimmed model with writes to the inputs and to constants '
+             'the trim kept as values: there the edge may come from the wired node trim_graph left in the '
+             'graph); a value assigned over a formula that is later calculated again (set_value(cell, None) '
+             '/ recalculate()). Members of a range node are taken from the rectangle of its address. '
+             'Sampling of formulas and histories, not proof.',
         note='Trusted: the build_eval_context wrapper (sim/seams.py) sees every read a formula makes; the '
              'harness DAG (generator-recorded precedents); networkx.ancestors. Reads by the compiler itself '
              '(no formula on the stack) are out of scope of the statement.',
@@ -63,11 +67,13 @@ CLAIMED = {
              'every later re-read through a drawn access path (cell, enclosing range, unbounded column/row '
              'range, list/tuple/generator, sheet-less address, address objects), on workbooks without stored '
              'results, xlsx files with stored results and models loaded from yml/json/pkl; every read must '
-             'agree with every other read of that cell and with the reference model. Orders are enumerated '
-             'per workbook, workbooks and paths are sampled.',
+             'agree with every other read of that cell and with the reference model; a third of the workbooks '
+             'have constants written (after being read on their own) before or between the first touches, the '
+             'reference then holds the values written so far; a whole column / row never comes back longer '
+             'than the sheet. Orders are enumerated per workbook, workbooks and paths are sampled.',
         note='Trusted: harness generator/driver, xlsx writer stub, reference = fresh compile evaluating each '
-             'cell once. The extent of the used area behind an unbounded range is not compared, only the '
-             'elements that are cells of the workbook. No writes (C01 owns them).',
+             'cell once (in the same interpreter: a process-wide cache inside pycel poisons both alike). '
+             'The extent of the used area behind an unbounded range is only bounded from above.',
         technique=TECH + ': enumerated first-touch permutations x seeded access paths vs. reference model',
         design='DESIGN.md section 3 C05'),
     'C06': dict(
@@ -78,16 +84,20 @@ CLAIMED = {
              'blocks (rows written out or through SUM over the cycle range) with a PROBE plugin as pass '
              'clock; per evaluate: passes <= iterations, returned value is the last pass value, early stop '
              'implies every tag moved <= tolerance in the last pass and the result is within '
-             'q/(1-q) x tolerance of the numpy fixed point; set_value on b between evaluations.',
+             'q/(1-q) x tolerance of the numpy fixed point; set_value on b between evaluations; full, '
+             'diagonal (every loop a self-reference) and lower triangular systems, loops closed through an '
+             'array formula.',
         note='Trusted: PROBE plugin counts passes; numpy.linalg.solve for the fixed point; slack 1e-5 is '
-             'pycel\'s documented comparison slack. Systems of 2-5 cells, iterations <= 200.',
+             'pycel\'s documented comparison slack. Systems of 1-5 cells, iterations <= 200.',
         technique=TECH + ': seeded histories; logical pass clock through a plugin function; analytic fixed-point oracle',
         design='DESIGN.md section 3 C06'),
     'C07': dict(
         level='exploration',
         text='2-3 real threads, each with its own compiled workbook and program (iterative evaluation with '
              'per-thread settings and a PROBE pass counter, array formulas that need fit_to_range, plain '
-             'histories, from_file of plain/iterative models, set_value + trim_graph), run under a '
+             'histories, from_file of plain/iterative models, set_value + trim_graph, evaluations that raise, '
+             'first evaluations that import a slow plugin module), models built inside the thread, outside '
+             'it, or handed over by the thread that first used them, run under a '
              'baton-passing scheduler that decides every switch at yield points of cell-evaluation granularity '
              '(operation boundaries, entry/return of every formula evaluation and of every _C_/_R_ read). '
              'Schedules: the systematic (j, k) family over a 24 x 24 grid per workload pair and seeded random '
@@ -98,7 +108,9 @@ CLAIMED = {
              'contextvars context. Per thread the outcomes, pass counts, the interpreter settings its formulas '
              'saw and a digest of the model it built must equal the alone run on a used thread; the alone runs '
              'on a fresh and on a warmed-up thread must equal it too; the thread that imports the function '
-             'library and a thread that did not must agree on a sheet of library functions.',
+             'library and a thread that did not must agree on a sheet of library functions. Fault "import '
+             'that takes a while": a plugin module offers a yield point half way through its body; an import '
+             'seam makes a thread that asks for it wait for the importing thread.',
         note='Trusted: the scheduler (one runnable thread at a time; a thread running without the baton is a '
              'harness error), yield points at cell-evaluation granularity and, in the line-grained runs, '
              'between lines of pycel\'s own source (never between the bytecodes of one line, never inside '
@@ -131,7 +143,10 @@ CLAIMED = {
              'overwrite with a constant) / follow-up histories (recalculate() and validate_calcs() among the '
              'operations) and a final sweep. An exception is accepted '
              'only on F or a dependant, only while the fault fires in that read, and only as a '
-             'PyCelException; every returned value must equal the fault-free reference.',
+             'PyCelException; every returned value must equal the fault-free reference; in the circular '
+             'workload every evaluation that works performs at most the requested passes and stops early only '
+             'when nothing moved by more than the tolerance, also for a slowly settling loop that has nothing '
+             'to do with the failing cell.',
         note='Trusted: BOOM/unknown-function as the model of "error inside a library or plugin function"; '
              'harness DAG for "depends on F". Sites are enumerated per workbook; workbooks, fault plans and '
              'follow-up histories are sampled. One known finding (KF1, iterative mode ignores an overwrite of '
@@ -145,7 +160,10 @@ CLAIMED = {
              'tolerance; text, logical, error results replaced by another value or type), plus cells that '
              'call an unknown function or a raising plugin; tolerance and the set of checked outputs are '
              'drawn (the site may be unreachable; workbooks with computed references are validated as a '
-             'whole). validate_calcs must return {} for clean files and '
+             'whole; validate_calcs(sheet=..) and verify_tree=False are among the ways of choosing). Histories '
+             'before the validation: cells evaluated, inputs assigned the value they hold; the file validated, '
+             'rewritten in place (half of the time with the same size) and compiled again. '
+             'validate_calcs must return {} for clean files and '
              'unreachable sites, name the corrupted cell with its stored and recomputed value, report nothing '
              'that does not depend on it, and list failing cells under exceptions / not-implemented.',
         note='Trusted: the xlsx writer stub (it is the fault injector), harness DAG for reachability and '
